@@ -13,7 +13,7 @@ part = [p for p in mod.PARTS if p.name == partname][0]
 tot = [0.0, 0]
 @hypothesis.seed(seed)
 @settings(max_examples=n, database=None, deadline=None, phases=(Phase.generate,), suppress_health_check=list(HealthCheck))
-@given(part.strategy("quick"))
+@given(part.strategy(os.environ.get("TIER", "quick")))
 def t(case):
     t0 = time.time(); out = part.run_case(case); dt = time.time() - t0
     tot[0] += dt; tot[1] += 1
